@@ -438,6 +438,7 @@ SUITES = {
     "py-range": {"measure": measure_py("range")},
     "py-deep": {"measure": measure_py("deep")},
     "py-exh": {"measure": measure_py("ops")},
+    "py-exh4": {"measure": measure_py("ops")},
     "arena": {"measure": measure_arena},
     "tree-ops": {"measure": measure_tree("ops")},
     "tree-iter": {"measure": measure_tree("iter")},
